@@ -5,6 +5,7 @@ calls must be answered by the rule's hook, otherwise the run is Undecided."""
 from __future__ import annotations
 
 import ast
+from fractions import Fraction
 
 from .finite import Ev, Undecided, _Ret
 from . import pat
@@ -29,6 +30,7 @@ class Obj:
         return self is o
 
 
+PURE_MATH = {"math.isclose", "math.floor", "math.ceil", "math.fabs", "math.hypot", "math.copysign", "math.trunc"}
 EXTRA_GLOBALS = {}     # module-level names of the analysed module bound to stand-ins for one abstract run
 
 
@@ -53,6 +55,10 @@ class ExtFn(StandIn):
 
     def __call__(self, *a, **k):
         impl = self._runner.ext.get(self._name)
+        if impl is None and self._name in PURE_MATH and all(isinstance(x, (int, float, Fraction)) for x in a) \
+                and all(isinstance(x, (int, float, Fraction)) for x in k.values()):
+            import math
+            return getattr(math, self._name.split(".")[1])(*a, **k)       # a pure function of plain numbers
         if impl is None:
             raise Undecided("external function " + self._name)
         return impl(*a, **k)
